@@ -444,3 +444,56 @@ Fixpoint crop_value (arrival : nat) (arrays : list (list bool)) (delays : list n
   | a :: arrays', d :: delays' => crop_value (arrival + Nat.min (start_zeros (skipn arrival a)) d) arrays' delays'
   | _, _ => arrival
   end.
+
+(* ---------------------------------------------------------------- guards of get_delays / get_crop_value *)
+(* get_delays raises NotImplementedError for more than one spatial mode, and -- when there is more
+   than one beamsplitter -- when the ranges range(min, max) of all beamsplitters have a common
+   element ("nested loops"): the intersection of intervals [lo_i, hi_i) is [max lo, min hi). *)
+Definition bs_sorted (ab : nat * nat) : nat * nat := (Nat.min (fst ab) (snd ab), Nat.max (fst ab) (snd ab)).
+Definition nested (bs : list (nat * nat)) : bool :=
+  match bs with
+  | [] | [_] => false
+  | _ =>
+    let s := map bs_sorted bs in
+    fold_right Nat.max 0 (map fst s) <? fold_right Nat.min (fold_right Nat.max 0 (map snd s)) (map snd s)
+  end.
+Definition get_delays_opt (bands : nat) (bs : list (nat * nat)) : option (list nat) :=
+  if 1 <? bands then None else if nested bs then None else Some (get_delays bs).
+Definition get_crop_opt (bands : nat) (bs : list (nat * nat)) (arrays : list (list bool)) : option nat :=
+  match get_delays_opt bands bs with
+  | Some d => Some (crop_value 0 arrays d)
+  | None => None
+  end.
+
+(* ---------------------------------------------------------------- shots resolution in get_tdm_options *)
+(* shots = kwargs.get("shots", program.run_options.get("shots", 1)); outer None = key absent,
+   inner None = the Python value None *)
+Definition resolve_shots (kw ro : option (option nat)) : option nat :=
+  match kw with
+  | Some v => v
+  | None => match ro with Some v => v | None => Some 1 end
+  end.
+
+(* ---------------------------------------------------------------- tdm/utils.py: vacuum_padding *)
+(* loops: for each loop (in sorted key order) its BSgate argument list and its maximal delay.
+   Values are opaque ids, id 0 is the number 0.  Returns the prologue of every loop and the total
+   arrival time (the returned "crop"). *)
+Fixpoint start_zeros_z (l : list Z) : nat :=
+  match l with [] => 0 | x :: r => if (x =? 0)%Z then S (start_zeros_z r) else 0 end.
+Fixpoint vp_arrivals (arrival : nat) (loops : list (list Z * nat)) : list nat * nat :=
+  match loops with
+  | [] => ([], arrival)
+  | (alpha, d) :: r =>
+    let z := start_zeros_z alpha in
+    let delay := if Nat.eqb z (length alpha) then d else Nat.min z d in
+    let '(ps, tot) := vp_arrivals (arrival + delay) r in
+    (arrival :: ps, tot)
+  end.
+Definition pad (pro tot : nat) (l : list Z) : list Z := repeat 0%Z pro ++ l ++ repeat 0%Z (tot - pro).
+(* gate_args = Sgate list, and per loop (Rgate list, BSgate list); delays *)
+Definition vacuum_padding (sg : list Z) (loops : list (list Z * list Z)) (delays : list nat)
+  : list Z * list (list Z * list Z) * nat :=
+  let '(ps, tot) := vp_arrivals 0 (combine (map snd loops) delays) in
+  (pad (hd 0 ps) tot sg,
+   map (fun lp => (pad (snd lp) tot (fst (fst lp)), pad (snd lp) tot (snd (fst lp)))) (combine loops ps),
+   tot).
